@@ -835,6 +835,20 @@ impl<Ix: SIx> Driver<Ix> {
             (true, true) => { let r = de!(StableGraph<i32, i32, Directed, Ix>); finish!(r, Obj::SD) }
             (true, false) => { let r = de!(StableGraph<i32, i32, Undirected, Ix>); finish!(r, Obj::SU) }
         }
+        // Weights are payload: a byte mutation can turn one negative, which the spec's encoding
+        // (-1 = vacant, weights >= 0) cannot represent.  Such weights are replaced by fresh serials
+        // through node_weight_mut / edge_weight_mut before the result is projected; the structure
+        // that came back is untouched.
+        if mutate {
+            let mut serial = self.serial;
+            onm!(&mut self.obj, g => {
+                let nis: Vec<_> = g.node_indices().collect();
+                for i in nis { if let Some(w) = g.node_weight_mut(i) { if *w < 0 { serial += 1; *w = serial; } } }
+                let eis: Vec<_> = g.edge_indices().collect();
+                for e in eis { if let Some(w) = g.edge_weight_mut(e) { if *w < 0 { serial += 1; *w = serial; } } }
+            });
+            self.serial = serial;
+        }
         let (nc, ec, _, _) = self.counts();
         de_ev["nc"] = json!(nc);
         de_ev["ec"] = json!(ec);
@@ -1216,8 +1230,35 @@ pub fn serde_segment<Ix: SIx>(ixname: &str, stable: bool, directed: bool, len: u
         let was_serde = op["op"] == "serde";
         d.apply(&op, log, rng);
         if was_serde {
-            // use what came back
+            // use what came back: observe, then exercise the rebuilt free lists (retain_* checks them in
+            // debug builds; extend_with_edges occupies a named vacancy that need not be the list head)
             d.apply(&json!({"op":"obs"}), log, rng);
+            if d.is_stable() && rng.chance(2, 3) {
+                let (_, ec2, nb2, _) = d.counts();
+                // retain_* is specified through unique weights: a mutated stream may have duplicated one
+                let st = d.project();
+                let uniq = |v: Vec<i64>| { let mut s = v.clone(); s.sort(); s.dedup(); s.len() == v.len() };
+                let nws: Vec<i64> = st["nd"].as_array().unwrap().iter().filter_map(|x| x.as_i64()).filter(|&x| x >= 0).collect();
+                let ews: Vec<i64> = st["ed"].as_array().unwrap().iter().filter_map(|x| x[2].as_i64()).filter(|&x| x >= 0).collect();
+                if rng.chance(1, 2) && uniq(nws) && uniq(ews) {
+                    d.apply(&json!({"op":"retain","kind": if rng.chance(1,2) {"node"} else {"edge"},"m":1000003,"r":1000002}), log, rng);
+                }
+                let vac: Vec<usize> = (0..nb2).filter(|i| !d.live_nodes().contains(i)).collect();
+                if !vac.is_empty() && ec2 + 1 < cap_e {
+                    let v = vac[rng.below(vac.len())];
+                    let ln2 = d.live_nodes();
+                    let other = if ln2.is_empty() { v } else { ln2[rng.below(ln2.len())] };
+                    let w = d.fresh();
+                    d.apply(&json!({"op":"extend_with_edges","edges":[[v, other, w]]}), log, rng);
+                    for a in d.live_nodes() {
+                        let w0 = on!(&d.obj, g => *g.node_weight(ni(a)).unwrap());
+                        if w0 == 0 { d.apply(&json!({"op":"set_node_weight","a":a}), log, rng); }
+                    }
+                    if d.counts().0 < cap_n { d.apply(&json!({"op":"add_node"}), log, rng); }
+                    if d.counts().0 < cap_n { d.apply(&json!({"op":"add_node"}), log, rng); }
+                    d.apply(&json!({"op":"obs"}), log, rng);
+                }
+            }
         }
         let _ = (nb, eb);
     }
